@@ -43,3 +43,35 @@ func init() {
 		},
 	})
 }
+
+var subStateNames = map[int64]string{0: "stateDisposed", 1: "stateLoading", 2: "stateLoaded", 3: "stateReady", 4: "stateToSend", 5: "stateSent", 6: "stateDeleted"}
+
+func init() {
+	register(&Property{
+		ID: "C04", Title: "Read access gating",
+		Explanation: "tbd",
+		Rules: []Rule{
+			{Name: "DOM/gates", Min: 5, Run: ruleGates, Doc: "data hand-out / call only after the matching grant on the same path"},
+			{Name: "TABLE/access", Min: 2, Run: ruleAccessTables, Doc: "decision lists of CanGet/CanCall"},
+			{Name: "DOM/verdict-store", Min: 2, Run: ruleVerdictStore, Doc: "verdict cached only for result or accessDenied"},
+			{Name: "DOM/invalidate", Min: 2, Run: ruleInvalidate, Doc: "cached verdict invalidated on every trigger"},
+		},
+	})
+	register(&Property{
+		ID: "C06", Title: "Access revocation",
+		Explanation: "tbd",
+		Rules: []Rule{
+			{Name: "DOM/token-fanout", Min: 1, Run: ruleTokenFanout, Doc: "token change re-checks every subscription"},
+			{Name: "DOM/invalidate", Min: 2, Run: ruleInvalidate, Doc: "cached verdict invalidated; gate closed before request"},
+			{Name: "DOM/event-gate", Min: 2, Run: ruleEventGate, Doc: "event gate"},
+		},
+	})
+	register(&Property{
+		ID: "C01", Title: "Convergence",
+		Explanation: "tbd",
+		Rules: []Rule{
+			{Name: "DOM/version-filter", Min: 3, Run: ruleVersionFilter, Doc: "version filter on delivery"},
+			{Name: "DOM/event-gate", Min: 2, Run: ruleEventGate, Doc: "event gate"},
+		},
+	})
+}
